@@ -72,6 +72,30 @@
 (* (RouteBlind holds): the alphabet of configurations needs every route    *)
 (* and temperatures between nodes; the driver realises it on real files of *)
 (* every container (EX_KTableHistory_cfg.cfg exports it).                  *)
+(*                                                                         *)
+(* CONTRIBUTION LIST.  "All atmospheres, both forward-model families"      *)
+(* includes WHAT ELSE absorbs next to the tabulated molecules and in which  *)
+(* ORDER the model holds its contributions: clist indexes CLists, a        *)
+(* sequence over {"k", "c1", "c2", "c3"} in which "k" -- the molecular     *)
+(* absorption, served by k-tables in one twin and by cross-sections in the *)
+(* other -- occurs once and "c.." are continuum contributions (Rayleigh,   *)
+(* flat Mie, CIA: cross-section-like in BOTH modes).  Every contribution   *)
+(* ADDS its optical depth to what the path already holds (the k-table term *)
+(* adds -log of its weighted average), so the path sees the SUM of the     *)
+(* continuum terms whatever the order (OrderFree), and the twin relation   *)
+(* is stated under the same list for both twins.  The continuum terms are  *)
+(* uninterpreted and independent (ContId: distinct powers of two, a sum    *)
+(* identifies its set).  PathRead says what the k-table path does with     *)
+(* them: "sum" (documented); mutants, each refuted by TwinEqualsXsec:      *)
+(* "k-overwrites" (the molecular term REPLACES what the path holds: the    *)
+(* continuum terms before "k" are lost), "last-continuum" (the continuum   *)
+(* accumulator is reset per contribution: only the last one survives),     *)
+(* "stops-at-k" (nothing after the molecular term is added).  ListBlind    *)
+(* (holds) says where they are invisible: "k" first / fewer than two       *)
+(* continuum terms / "k" last -- so the alphabet of lists needs a continuum*)
+(* term BEFORE "k", one AFTER it, and TWO OR MORE of them, in both         *)
+(* families; the driver realises the exported alphabet with real           *)
+(* contributions in transmission and emission models.                      *)
 (***************************************************************************)
 EXTENDS Integers, Sequences, FiniteSets, TLC
 
@@ -85,15 +109,22 @@ CONSTANTS NN,        \* native points 1..NN
           Interps,   \* subset of {"linear", "exp"}
           Routes,    \* subset of {"global", "api", "ctor", "setter"}
           Extras,    \* subset of {"none", "stream", "deactive"}
-          CfgReads   \* subset of {"both", "k-ctor-drops", "x-ctor-drops", "k-setter-noop", "x-setter-noop", "k-api-stale"}
+          CfgReads,  \* subset of {"both", "k-ctor-drops", "x-ctor-drops", "k-setter-noop", "x-setter-noop", "k-api-stale"}
+          CLists,    \* sequence of contribution lists over {"k", "c1", "c2", "c3"}, "k" exactly once; CLists[1] = <<"k">>
+          PathReads  \* subset of {"sum", "k-overwrites", "last-continuum", "stops-at-k"}
 
 ASSUME Len(TPs) = NTP
+ASSUME /\ Len(CLists) >= 1 /\ CLists[1] = <<"k">>
+       /\ \A i \in DOMAIN CLists : /\ \A j \in DOMAIN CLists[i] : CLists[i][j] \in {"k", "c1", "c2", "c3"}
+                                   /\ Cardinality({j \in DOMAIN CLists[i] : CLists[i][j] = "k"}) = 1
+                                   /\ \A j, k \in DOMAIN CLists[i] : CLists[i][j] = CLists[i][k] => j = k
 
-\* Key, ModeRead and CfgRead are fixed at Init (one design variant per behaviour)
-VARIABLES Key, ModeRead, CfgRead, win, tp, mode, mode0, interp, route, extra, loaded, memo, outk, outx, shape, evald
-design == <<Key, ModeRead, CfgRead>>
+\* Key, ModeRead, CfgRead and PathRead are fixed at Init (one design variant per behaviour)
+VARIABLES Key, ModeRead, CfgRead, PathRead, win, tp, mode, mode0, interp, route, extra, loaded, memo, clist,
+          outk, outx, outck, outcx, shape, evald
+design == <<Key, ModeRead, CfgRead, PathRead>>
 conf   == <<interp, route, extra, loaded>>
-vars == <<design, win, tp, mode, mode0, conf, memo, outk, outx, shape, evald>>
+vars == <<design, win, tp, mode, mode0, conf, memo, clist, outk, outx, outck, outcx, shape, evald>>
 
 Native   == 1..NN
 Coord(p) == 2 * p
@@ -124,6 +155,21 @@ Eff(f) == IF Drops(f) /\ route # "setter" THEN Default
           ELSE IF (Noop(f) /\ route = "setter") \/ (Stale(f) /\ route = "api") THEN loaded
           ELSE interp
 
+\* ---- the contribution list
+CL == CLists[clist]
+ContId(c) == CASE c = "c1" -> 1 [] c = "c2" -> 2 [] c = "c3" -> 4 [] OTHER -> 0
+KPos(L)   == CHOOSE i \in DOMAIN L : L[i] = "k"
+Conts(L)  == {i \in DOMAIN L : L[i] # "k"}
+ContSet(L) == {L[i] : i \in Conts(L)}
+RECURSIVE ContSum(_, _, _)
+ContSum(L, a, b) == IF a > b THEN 0 ELSE ContId(L[a]) + ContSum(L, a + 1, b)
+ContAll(L) == ContSum(L, 1, Len(L))
+\* the continuum optical depth the k-table path ends up with, by design variant
+PathSeen(L) == CASE PathRead = "k-overwrites"   -> ContSum(L, KPos(L) + 1, Len(L))
+                 [] PathRead = "last-continuum" -> IF Conts(L) = {} THEN 0 ELSE ContId(L[KSMax(Conts(L))])
+                 [] PathRead = "stops-at-k"     -> ContSum(L, 1, KPos(L) - 1)
+                 [] OTHER                       -> ContAll(L)
+
 \* uninterpreted coefficient of native point p at (T, P) class t under scheme m: injective in (p, t) and, between
 \* temperature nodes, in the scheme
 CoefS(p, t, m) == (p * (NTP + 1) + t) * 3 + (IF Schemed(t) THEN SchemeId(m) ELSE 0)
@@ -148,54 +194,71 @@ UsedSel(w) == IF w = 0 \/ Key = "none" \/ Hit(w) = {} THEN Sel(w)
 UsedTP(w)  == IF w = 0 \/ Key # "window" \/ Hit(w) = {} THEN tp
               ELSE (CHOOSE m \in Hit(w) : TRUE).t
 
-Init == /\ Key \in Keys /\ ModeRead \in ModeReads /\ CfgRead \in CfgReads
+\* a design variant deviates from the documented design in ONE respect (a memo may be combined with "eval" only)
+OneVariant == \/ ModeRead = "eval" /\ CfgRead = "both" /\ PathRead = "sum"
+              \/ Key = "none" /\ CfgRead = "both" /\ PathRead = "sum"
+              \/ Key = "none" /\ ModeRead = "eval" /\ PathRead = "sum"
+              \/ Key = "none" /\ ModeRead = "eval" /\ CfgRead = "both"
+Init == /\ Key \in Keys /\ ModeRead \in ModeReads /\ CfgRead \in CfgReads /\ PathRead \in PathReads
+        /\ OneVariant
+        /\ clist \in DOMAIN CLists /\ outck = 0 /\ outcx = 0
         /\ win \in WinIds /\ tp \in 1..NTP /\ mode \in {"k", "x"} /\ mode0 = mode
         /\ interp \in Interps /\ route \in Routes /\ extra \in Extras
         /\ loaded = (IF route = "setter" THEN Default ELSE interp)
         /\ memo = {} /\ outk = <<>> /\ outx = <<>> /\ shape = "-" /\ evald = FALSE
 \* a setting changes: the previous results are no longer looked at
-Forget     == evald' = FALSE /\ outk' = <<>> /\ outx' = <<>> /\ shape' = "-"
-SetWin(w)  == win # w /\ win' = w /\ Forget /\ UNCHANGED <<design, tp, mode, mode0, conf, memo>>
-SetTP(t)   == tp # t /\ tp' = t /\ Forget /\ UNCHANGED <<design, win, mode, mode0, conf, memo>>
-SetMode(m) == mode # m /\ mode' = m /\ Forget /\ UNCHANGED <<design, win, tp, mode0, conf, memo>>
+Forget     == evald' = FALSE /\ outk' = <<>> /\ outx' = <<>> /\ shape' = "-" /\ outck' = 0 /\ outcx' = 0
+SetWin(w)  == win # w /\ win' = w /\ Forget /\ UNCHANGED <<design, tp, mode, mode0, conf, memo, clist>>
+SetTP(t)   == tp # t /\ tp' = t /\ Forget /\ UNCHANGED <<design, win, mode, mode0, conf, memo, clist>>
+SetMode(m) == mode # m /\ mode' = m /\ Forget /\ UNCHANGED <<design, win, tp, mode0, conf, memo, clist>>
+\* the model is given another list of contributions (the loaded tables stay, memo included)
+SetList(i) == clist # i /\ clist' = i /\ Forget /\ UNCHANGED <<design, win, tp, mode, mode0, conf, memo>>
 \* another configuration is established through route r: the tables of both kinds are loaded again (whatever
 \* the objects kept is gone) unless r sets the scheme in place on the objects already loaded
 SetCfg(m, r, e) == /\ <<interp, route, extra>> # <<m, r, e>>
                    /\ interp' = m /\ route' = r /\ extra' = e
                    /\ loaded' = (IF Kept(r) THEN loaded ELSE m)
                    /\ memo' = (IF Kept(r) THEN memo ELSE {})
-                   /\ Forget /\ UNCHANGED <<design, win, tp, mode, mode0>>
+                   /\ Forget /\ UNCHANGED <<design, win, tp, mode, mode0, clist>>
 \* one evaluation of the long-lived pair under the current configuration: the k-table object (with its memo) and
 \* the cross-section object with the same numbers (no memo); `shape` is the path the model actually took
 Eval == /\ outk' = [g \in 1..NG |-> Res(UsedSel(win), win, UsedTP(win), Eff("k"))]
         /\ outx' = Fresh(win, tp, Eff("x"))
         /\ memo' = IF win # 0 /\ Key # "none" /\ Hit(win) = {}
                    THEN {[k |-> KeyOf(win), s |-> Sel(win), t |-> IF Key = "window" THEN tp ELSE 0]} ELSE memo
+        /\ outck' = PathSeen(CL)
+        /\ outcx' = ContAll(CL)
         /\ shape' = IF ModeRead = "eval" THEN mode ELSE mode0
         /\ evald' = TRUE
-        /\ UNCHANGED <<design, win, tp, mode, mode0, conf>>
+        /\ UNCHANGED <<design, win, tp, mode, mode0, conf, clist>>
 Next == \/ \E w \in WinIds : SetWin(w)
         \/ \E t \in 1..NTP : SetTP(t)
         \/ \E m \in {"k", "x"} : SetMode(m)
         \/ \E m \in Interps, r \in Routes, e \in Extras : SetCfg(m, r, e)
+        \/ \E i \in DOMAIN CLists : SetList(i)
         \/ Eval
 Spec == Init /\ [][Next]_vars
 
 \* (1) every evaluation equals the evaluation of a freshly loaded object at the current settings and configuration
 EvalEqualsFresh == evald => /\ \A g \in 1..NG : outk[g] = Fresh(win, tp, interp)
+                            /\ outck = ContAll(CL)
                             /\ shape = mode
 \* (2) the degenerate k-table twin evaluated under the current configuration equals the cross-section twin evaluated
 \*     under the same configuration, at every quadrature point, every time
-TwinEqualsXsec  == evald => \A g \in 1..NG : outk[g] = outx
+\*     and under the same list of contributions: both paths hold the same continuum optical depth
+TwinEqualsXsec  == evald => (\A g \in 1..NG : outk[g] = outx) /\ outck = outcx
+\* the path holds the sum of the continuum terms: only the SET of contributions matters, not their order
+OrderFree == evald => \A j \in DOMAIN CLists : ContSet(CLists[j]) = ContSet(CL) => outck = ContAll(CLists[j])
 \* the result is defined on exactly the requested points
 OnRequestedGrid == evald => \A g \in 1..NG : DOMAIN outk[g] = Req(win)
 \* on nodes and outside the table the scheme does not enter: the result is the same under every scheme
 SchemeFree(w, t) == \A m \in Interps : Fresh(w, t, m) = Fresh(w, t, Default)
 OnNodeSchemeFree == evald => (Schemed(tp) \/ SchemeFree(win, tp))
 \* the design variants that must satisfy the invariants, and the mutants, in ONE model-checking run
-Sound     == Key \in {"none", "content", "ends"} /\ ModeRead = "eval" /\ CfgRead = "both"
+Sound     == Key \in {"none", "content", "ends"} /\ ModeRead = "eval" /\ CfgRead = "both" /\ PathRead = "sum"
 HoldFresh == Sound => EvalEqualsFresh
 HoldTwin  == Sound => TwinEqualsXsec
+HoldOrder == Sound => OrderFree
 \* one invariant per design mutant (expected counterexamples, TLC -continue reports each)
 RefuteSize    == Key = "size" => EvalEqualsFresh
 RefuteFirst   == Key = "first" => EvalEqualsFresh
@@ -206,10 +269,18 @@ RefuteXDrops  == CfgRead = "x-ctor-drops" => TwinEqualsXsec
 RefuteKNoop   == CfgRead = "k-setter-noop" => TwinEqualsXsec
 RefuteXNoop   == CfgRead = "x-setter-noop" => TwinEqualsXsec
 RefuteKStale  == CfgRead = "k-api-stale" => TwinEqualsXsec
+RefuteOverwrite == PathRead = "k-overwrites" => TwinEqualsXsec
+RefuteLastOnly  == PathRead = "last-continuum" => TwinEqualsXsec
+RefuteStopsAtK  == PathRead = "stops-at-k" => TwinEqualsXsec
 \* ... and where those mutants are INVISIBLE (these hold): on nodes / outside the table; on the other routes
-CfgMutant  == CfgRead # "both" /\ Key = "none" /\ ModeRead = "eval"
+CfgMutant  == CfgRead # "both" /\ Key = "none" /\ ModeRead = "eval" /\ PathRead = "sum"
 NodeBlind  == (CfgMutant /\ ~Schemed(tp)) => TwinEqualsXsec
 RouteBlind == /\ (CfgMutant /\ CfgRead \in {"k-ctor-drops", "x-ctor-drops"} /\ route = "setter") => TwinEqualsXsec
               /\ (CfgMutant /\ CfgRead \in {"k-setter-noop", "x-setter-noop"} /\ route # "setter") => TwinEqualsXsec
               /\ (CfgMutant /\ CfgRead = "k-api-stale" /\ route # "api") => TwinEqualsXsec
+\* ... with the molecular term first / fewer than two continuum terms / the molecular term last
+PathMutant == PathRead # "sum" /\ Key = "none" /\ ModeRead = "eval" /\ CfgRead = "both"
+ListBlind  == /\ (PathMutant /\ PathRead = "k-overwrites" /\ KPos(CL) = 1) => TwinEqualsXsec
+              /\ (PathMutant /\ PathRead = "last-continuum" /\ Cardinality(Conts(CL)) <= 1) => TwinEqualsXsec
+              /\ (PathMutant /\ PathRead = "stops-at-k" /\ KPos(CL) = Len(CL)) => TwinEqualsXsec
 =============================================================================
